@@ -5,6 +5,7 @@ mod cmd_consts;
 mod cmd_layout;
 mod cmd_recon;
 mod cmd_lfdbt;
+mod cmd_adapters;
 #[cfg(feature = "matrix")]
 mod cmd_session;
 
@@ -17,6 +18,7 @@ fn main() {
         "layout" => cmd_layout::run(),
         "recon" => cmd_recon::run(),
         "lfdbt" => cmd_lfdbt::run(),
+        "adapters" => cmd_adapters::run(),
         #[cfg(feature = "matrix")]
         "session" => cmd_session::run(),
         "variant" => {
